@@ -1,7 +1,7 @@
 (* C18 — Relocating, renaming or reformatting a program changes output only as it must. *)
 From V Require Import Base.
 From V.model Require Import MText MValues MOperands MProgram.
-From V.proofs Require Import PC18.
+From V.proofs Require Import PC18 PC01text PC18reloc.
 From V.gen Require Tables.
 From Coq Require String.
 Import String.StringSyntax.
@@ -84,11 +84,64 @@ Theorem C18_absolute_reference_is_the_address :
 Proof. exact absolute_label_reference_emits_address. Qed.
 Print Assumptions C18_absolute_reference_is_the_address.
 
+(* (c) RELOCATION OF A WHOLE PROGRAM.  Two programs whose first line is an ORG statement in any layout with a
+   literal operand in any decimal or $hex spelling (origins a and a', D = a' - a), followed by the same statements,
+   none of them an ORG or an INCLUDE (INCLUDE is textual inclusion: C19).  If both assemble and every label
+   expression of the program is a sum or a difference (reloc_ok: + or - only, and a PC-relative target holds exactly
+   one label positively - label, label+n, n+label, label-n; the quantifier of the property), then, statement by
+   statement (relation R D): same label, mnemonic, SIZE, opcode and post byte - the size loop never looks at an
+   address -, the address moves by exactly D, and the operand value moves by  coef_stmt * D  where coef_stmt is 0 for a
+   branch, 0 for a label,PCR / label+-n,PCR operand, 0 for an operand without a label and for a difference of two
+   labels, 1 for an absolute reference label / label+n / n+label / label-n (also as an index offset); with
+   coefficient 0 the operand bytes are identical.  In the symbol table a label moves by D, an EQU constant stays, an
+   EQU of label arithmetic moves by its coefficient (sym_rel).  Proof: proofs/PC18reloc.v - a simulation of the two
+   runs through INCLUDE expansion, the symbol passes, resolve, translate, the size loop, the address pass,
+   fix_addresses and the symbol back-patch. *)
+Theorem C18_program_relocation :
+  forall fm f f' i l l' rest,
+    well_formed_fields f -> well_formed_fields f' ->
+    find_instr (upper_t (lf_mn f)) Tables.instructions = Some i -> find_instr (upper_t (lf_mn f')) Tables.instructions = Some i ->
+    Tables.is_origin i = true -> lf_label f' = lf_label f -> lit_ok l -> lit_ok l' -> lf_ops f = lit_text l -> lf_ops f' = lit_text l' ->
+    Forall movable rest ->
+    exists o o', parse_line (line_of f) = Ok (Some o) /\ parse_line (line_of f') = Ok (Some o') /\
+      forall ss tb ss' tb', translate_program fm (o :: rest) = Ok (ss, tb) -> translate_program fm (o' :: rest) = Ok (ss', tb') ->
+        Forall reloc_ok ss ->
+        let D := (Z.of_N (lit_value l') - Z.of_N (lit_value l))%Z in
+        Forall2 (R D) ss ss' /\
+        exists tb0, backpatch ss tb0 = Ok tb /\ backpatch ss' tb0 = Ok tb' /\ (sym_ok tb0 -> rel3 (sym_rel D) tb0 tb tb').
+Proof. exact program_relocation. Qed.
+Print Assumptions C18_program_relocation.
+
+(* what R means for what is listed and emitted: size, label and mnemonic unchanged, the listing address moved by D, and
+   - whenever the coefficient is 0 - exactly the same bytes *)
+Theorem C18_relocated_statement_observed :
+  forall D t t' r r', R D t t' -> stmt_result t = Ok r -> stmt_result t' = Ok r' ->
+    r_size r' = r_size r /\ r_label r' = r_label r /\ r_mn r' = r_mn r /\
+    Z.of_N (r_addr r') = (Z.of_N (r_addr r) + D)%Z /\
+    ((coef_stmt t * D = 0)%Z -> r_bytes r' = r_bytes r).
+Proof. exact R_results. Qed.
+Print Assumptions C18_relocated_statement_observed.
+
+(* the coefficient, case by case: branches and PC-relative operands 0; otherwise the label content of the operand value *)
+Theorem C18_relocation_coefficients :
+  (forall s, is_relative_op (s_operand s) = true -> coef_stmt s = 0%Z) /\
+  (forall s, is_relative_op (s_operand s) = false -> addr_offset (s_pkg s) = false -> cp_needs (s_pkg s) = true -> coef_stmt s = 0%Z) /\
+  (forall s, is_relative_op (s_operand s) = false -> cp_needs (s_pkg s) = false -> coef_stmt s = coef_value (operand_value (s_operand s))) /\
+  (forall k, coef_value (VAddr k) = 1%Z) /\
+  (forall k c m, coef_value (VExpr (VAddr k) 43 (VNum c) m true) = 1%Z) /\
+  (forall k c m, coef_value (VExpr (VNum c) 43 (VAddr k) m true) = 1%Z) /\
+  (forall k c m, coef_value (VExpr (VAddr k) 45 (VNum c) m true) = 1%Z) /\
+  (forall k j m, coef_value (VExpr (VAddr k) 45 (VAddr j) m true) = 0%Z) /\
+  (forall c, coef_value (VNum c) = 0%Z) /\ coef_value VNone = 0%Z /\ (forall a b m, coef_value (VLR a b m) = 0%Z) /\
+  (forall x, coef_value (VStr x) = 0%Z) /\ (forall x, coef_value (VMulti x) = 0%Z).
+Proof.
+  split; [exact coef_branch|]. split; [exact coef_pcr|]. split; [exact coef_plain|]. exact coef_value_cases.
+Qed.
+Print Assumptions C18_relocation_coefficients.
+
 (* PARTIAL.  What is NOT proved here and is decided by the metamorphic correspondence check of harness/asm_meta.py
-   on every run (relocation by D, label bijections, layout variants, appended suffixes, each compared on the
-   implementation AND on the extracted model): that the SIZES chosen by the PC-relative size loop do not depend
-   on the origin, on label names or on appended statements (the program-level statements of relocation,
-   renaming and suffix invariance). *)
+   on every run (label bijections, appended suffixes, each compared on the implementation AND on the extracted
+   model): the program-level statements of renaming and suffix invariance; relocation of programs with several ORGs. *)
 
 Definition t (s : String.string) : text := text_of_string s.
 Local Open Scope string_scope.
@@ -136,4 +189,44 @@ Proof.
   split.
   - eexists. eexists. split; [vm_compute; reflexivity|]. split; [vm_compute; reflexivity|]. vm_compute. repeat split.
   - eexists. eexists. split; [vm_compute; reflexivity|]. split; [vm_compute; reflexivity|]. vm_compute. repeat split.
+Qed.
+
+(* the hypotheses of (c) are met: a program with an absolute reference, label arithmetic, a branch, a PC-relative
+   operand, data holding an address and EQUs, assembled at $1000 and at 8192; every address moves by 4096 *)
+Definition reloc_tail : list text := [t "START LDX #TABLE
+"; t "LOOP LDA ,X+
+"; t " BNE LOOP
+"; t " LEAX TABLE+1,PCR
+"; t " LDD TABLE+2
+"; t " JMP START
+"; t "TABLE FCB 1,2,3
+"; t " FDB LOOP
+"; t "LEN EQU TABLE-START
+"; t "LAST EQU TABLE+2
+"].
+
+Definition reloc_rest : list stmt := Eval vm_compute in match parse_lines reloc_tail with Ok r => r | _ => [] end.
+Definition reloc_run (line : text) : res (list stmt * symtab) :=
+  match parse_line line with Ok (Some o) => translate_program [] (o :: reloc_rest) | _ => Diag 0 end.
+Definition reloc_at_1000 : list stmt * symtab :=
+  Eval vm_compute in match reloc_run (t " ORG $1000
+") with Ok r => r | _ => ([], []) end.
+Definition reloc_at_8192 : list stmt * symtab :=
+  Eval vm_compute in match reloc_run (t "  org 8192 ; moved
+") with Ok r => r | _ => ([], []) end.
+
+Example C18_relocation_nonvacuous :
+  parse_lines reloc_tail = Ok reloc_rest /\ Forall movable reloc_rest /\
+  reloc_run (t " ORG $1000
+") = Ok reloc_at_1000 /\ reloc_run (t "  org 8192 ; moved
+") = Ok reloc_at_8192 /\
+  Forall reloc_ok (fst reloc_at_1000) /\ length (fst reloc_at_1000) = 11%nat /\
+  map (fun s => v_int (cp_addr (s_pkg s))) (fst reloc_at_8192) = map (fun s => v_int (cp_addr (s_pkg s)) + 4096) (fst reloc_at_1000).
+Proof.
+  split; [vm_compute; reflexivity|]. split.
+  - apply (movable_of reloc_tail); vm_compute; reflexivity.
+  - split; [vm_compute; reflexivity|]. split; [vm_compute; reflexivity|]. split.
+    + assert (Hall : forallb reloc_okb (fst reloc_at_1000) = true) by (vm_compute; reflexivity).
+      rewrite forallb_forall in Hall. apply Forall_forall. intros s Hs. apply reloc_okb_ok. exact (Hall s Hs).
+    + split; vm_compute; reflexivity.
 Qed.
